@@ -485,8 +485,28 @@ def mutants_of(ctx: Ctx, pk: dict, pool: list, tables_by_name: dict, other_keys:
         # 6. key substitution + re-signed by the substituted key: an AUTHENTIC datagram of the attacker's own key
         body = ksub[:-n]
         out.append((ov, body + bytes(atk.signature(body)), "key-substitution+resign", "authentic-other-key"))
+    # 4b. substitution by keys that are SPECIAL to the receiver: its own key, and the key of a peer it has verified —
+    #     with the old signature, with a signature by the attacker's key, with garbage of the right length
+    atk25 = other_keys["curve25519"]
+    specials = []
+    if other_keys.get("__receiver__", {}).get(ov):
+        specials.append(("receiver-own-key", other_keys["__receiver__"][ov], None))
+    vk_ = fresh_key(ctx, rng.choice(["curve25519", pk["curve"]]))
+    vpub = bytes(vk_.pub().key_to_bin())
+    from ipv8.messaging.interfaces.udp.endpoint import UDPv4Address as _A4
+    specials.append(("verified-victim-key", vpub,
+                     [(vpub, _A4("10.%d.%d.%d" % (rng.randrange(1, 255), rng.randrange(256), rng.randrange(1, 255)),
+                                 rng.randrange(1024, 65535)))]))
+    for label, spub, pre_ in specials:
+        sn = real_parse(spub)[1]
+        head = d[:23] + len(spub).to_bytes(2, "big") + spub + d[25 + kl:-n]
+        out.append((ov, head + d[-n:], "key-substitution", label + "/old-signature", pre_))
+        out.append((ov, head + bytes(atk25.signature(head))[:sn].ljust(sn, b"\0"), "key-substitution",
+                    label + "/attacker-signature", pre_))
+        out.append((ov, head + bytes(rng.randrange(256) for _ in range(sn)), "key-substitution",
+                    label + "/random-signature", pre_))
     for c2, k2 in other_keys.items():
-        if c2 != pk["curve"]:
+        if c2 != pk["curve"] and not c2.startswith("__"):
             p2 = bytes(k2.pub().key_to_bin())
             out.append((ov, d[:23] + len(p2).to_bytes(2, "big") + p2 + d[25 + kl:], "key-substitution", "other-curve"))
             break
@@ -789,15 +809,21 @@ async def run_async(ctx: Ctx, use_model: bool, scale: dict):
     other_keys = {}
     for lvl in ("curve25519", "very-low", "low", "medium", "high"):
         other_keys[lvl] = fresh_key(ctx, lvl)
+    # the receivers exist before the mutants are made: some mutants name the receiver's own key
+    obs = Observer()
+    recv = Receivers(tables, obs)
+    other_keys["__receiver__"] = {name: bytes(recv.get(name).my_peer.public_key.key_to_bin()) for name in tbn}
 
     # ---- mutants ---------------------------------------------------------------------------------------------
     cases = []
     for i, p in enumerate(signed):
+        if i % scale.get("base_stride", 1):
+            continue
         every = scale["every_byte_upto"] and len(p["data"]) <= scale["every_byte_upto"] \
             and i % scale["every_byte_stride"] == 0
-        for tgt, data, op, cls_name in mutants_of(ctx, p, signed, tbn, other_keys, scale["flips"], bool(every)):
+        for tgt, data, op, cls_name, *more in mutants_of(ctx, p, signed, tbn, other_keys, scale["flips"], bool(every)):
             cases.append({"target": tgt, "data": data, "op": op, "cls": cls_name, "origin": p["overlay"],
-                          "signer": spec_eval(p["data"])["canon"],
+                          "signer": spec_eval(p["data"])["canon"], "pre": (more[0] if more and more[0] else None),
                           "curve": p["curve"], "src": p["src"]})
     # -- receiver-state dimension: what the receiver already believes about the SOURCE ADDRESS of the mutant ------------
     #    as-captured (nobody verified there, unless an earlier accepted datagram put the sender there) |
@@ -808,8 +834,8 @@ async def run_async(ctx: Ctx, use_model: bool, scale: dict):
     from ipv8.messaging.interfaces.udp.endpoint import UDPv4Address
     extra = []
     for c in cases:
-        dispatch_level = c["op"] in ("replay-other-overlay", "prefix-swap", "msgid-swap", "unmodified") or \
-            (c["op"] == "bitflip" and c["cls"] in ("prefix", "msgid")) or (c["op"] == "truncate" and c["cls"].startswith("keep2"))
+        dispatch_level = c["op"] in ("replay-other-overlay", "prefix-swap", "unmodified") or \
+            (c["op"] == "bitflip" and c["cls"] in ("prefix", "msgid"))
         src = UDPv4Address(*c["src"])
         okey = c.get("signer")
 
@@ -817,11 +843,11 @@ async def run_async(ctx: Ctx, use_model: bool, scale: dict):
             cc = dict(cc)
             cc["srcstate"] = state
             if state == "other-verified-peer-at-src":
-                cc["pre"] = [(bytes(fresh_key(ctx, "curve25519").pub().key_to_bin()), src)]
+                cc["pre"] = (cc.get("pre") or []) + [(bytes(fresh_key(ctx, "curve25519").pub().key_to_bin()), src)]
             elif state == "signer-verified-at-src" and okey is not None:
-                cc["pre"] = [(okey, src)]
+                cc["pre"] = (cc.get("pre") or []) + [(okey, src)]
             elif state == "signer-verified-elsewhere" and okey is not None:
-                cc["pre"] = [(okey, UDPv4Address("10.%d.%d.%d" % (ctx.rng.randrange(1, 255), ctx.rng.randrange(256),
+                cc["pre"] = (cc.get("pre") or []) + [(okey, UDPv4Address("10.%d.%d.%d" % (ctx.rng.randrange(1, 255), ctx.rng.randrange(256),
                                                                  ctx.rng.randrange(1, 255)), ctx.rng.randrange(1024, 65535)))]
             return cc
         if dispatch_level:
@@ -867,8 +893,6 @@ async def run_async(ctx: Ctx, use_model: bool, scale: dict):
             c["m_rem"] = rem
 
     # ---- deliveries + oracle ---------------------------------------------------------------------------------
-    obs = Observer()
-    recv = Receivers(tables, obs)
     obs.start()
     keys_seen = {}
     lines, expected = [], []
@@ -1124,16 +1148,24 @@ async def run_async(ctx: Ctx, use_model: bool, scale: dict):
 
 SCALES = {
     "quick": {"capture_rounds": 1, "per_pair": 1, "flips": 2, "every_byte_upto": 0, "every_byte_stride": 1,
-              "unsigned_samples": 40, "pack_cases": 20, "identity_stride": 1},
+              "unsigned_samples": 40, "pack_cases": 20, "identity_stride": 2},
     "thorough": {"capture_rounds": 3, "per_pair": 1, "flips": 8, "every_byte_upto": 1500, "every_byte_stride": 4,
                  "unsigned_samples": 300, "pack_cases": 300, "identity_stride": 1},
-    "search": {"capture_rounds": 2, "per_pair": 2, "flips": 4, "every_byte_upto": 0, "every_byte_stride": 1,
-               "unsigned_samples": 100, "pack_cases": 0, "identity_stride": 1},
+    # the widened search after a broken obligation is bounded (a failing quick run must end within ~3 min): one more
+    # capture round with other random choices, not a bigger one
+    "search": {"capture_rounds": 1, "per_pair": 1, "flips": 3, "every_byte_upto": 0, "every_byte_stride": 1,
+               "unsigned_samples": 40, "pack_cases": 0, "identity_stride": 2, "base_stride": 2},
+    # the same implementation-only run in a child interpreter started with -O (assert statements compiled away)
+    "child": {"capture_rounds": 1, "per_pair": 1, "flips": 1, "every_byte_upto": 0, "every_byte_stride": 1,
+              "unsigned_samples": 10, "pack_cases": 0, "identity_stride": 8, "base_stride": 5},
 }
 
 
 def run(ctx: Ctx):
     if ctx.replay_input is not None:
+        r = ctx.replay_input.get("replay", ctx.replay_input)
+        if r.get("python_flags") and not sys.flags.optimize:
+            return run_in_child(ctx, r["python_flags"], replay_file=r)
         return asyncio.run(replay(ctx, ctx.replay_input))
     if "tables" not in _INFO:
         try:
@@ -1141,6 +1173,60 @@ def run(ctx: Ctx):
         except TranslatorError:
             raise
     asyncio.run(run_async(ctx, ctx.model_ok, SCALES[ctx.tier]))
+    # configuration dimension: the same receive path under `python -O` / PYTHONOPTIMIZE (no assert statements)
+    run_in_child(ctx, "-O")
+
+
+def run_in_child(ctx: Ctx, flags: str, replay_file: dict | None = None):
+    """implementation-only oracle run (or a replay) in a child interpreter started with `flags`; its oracle failures are
+    merged into this run with `python_flags` recorded in the replay"""
+    import json
+    import os
+    import subprocess
+    import tempfile
+    from vlib import InfraError, VERIF
+    work = VERIF / "replays" / "C01"
+    work.mkdir(parents=True, exist_ok=True)
+    with tempfile.NamedTemporaryFile("w", suffix=".json", dir=work, delete=False) as f:
+        json.dump({"seed": ctx.seed, "replay": replay_file}, f)
+        job = f.name
+    try:
+        p = subprocess.run([sys.executable, *flags.split(), "-c",
+                            "import sys, c01; c01.child_main(sys.argv[1])", job],
+                           capture_output=True, timeout=600, env=dict(os.environ))
+        if p.returncode != 0:
+            raise InfraError(f"child interpreter {flags} failed: {p.stderr.decode()[-400:]}")
+        res = json.loads(p.stdout.decode().strip().split("\n")[-1])
+    finally:
+        os.unlink(job)
+    ctx.extra.setdefault("child_runs", {})[flags] = {"cases": res["cases"], "oracle_failures": len(res["failures"]),
+                                                     "optimize_flag_in_child": res["optimize"]}
+    ctx.evaluations += res["cases"]
+    for k, v in res["counts"].items():
+        ctx.count(f"python{flags}:{k}", v)
+    for fl in res["failures"][:50]:
+        rp = dict(fl["replay"])
+        rp["python_flags"] = flags
+        ctx.oracle_fail(fl["signature"], f"[interpreter started with {flags}] " + fl["what"], rp)
+    if replay_file is not None:
+        print(f"replay in a child interpreter started with {flags}: property {'FAILS' if res['failures'] else 'holds'}")
+
+
+def child_main(job_path: str):
+    import json
+    from vlib import Ctx as _Ctx
+    job = json.load(open(job_path))
+    ctx = _Ctx(PROPERTY, "quick", int(job["seed"]) + 1000003)
+    _INFO["tables"] = gen_c01.collect_tables()
+    if job.get("replay"):
+        asyncio.run(replay(ctx, job["replay"]))
+    else:
+        asyncio.run(run_async(ctx, False, SCALES["child"]))
+    keep = ("op:", "impl:", "spec:", "kind:")
+    print(json.dumps({"cases": ctx.evaluations, "optimize": sys.flags.optimize,
+                      "counts": {k: v for k, v in ctx.counts.items() if k.startswith(keep)},
+                      "failures": [{"signature": f["signature"], "what": f["what"], "replay": f["replay"]}
+                                   for f in ctx.failures[:50]]}, default=str))
 
 
 def search(ctx: Ctx, reason: str):
